@@ -103,6 +103,12 @@ func replayOther(o *hx.Out, k string, line []byte) {
 			panic(err)
 		}
 		o.Put(runChain(rec.Heights, rec.Cache, rec.Reqs))
+	case "sync":
+		var rec syncRec
+		if err := json.Unmarshal(line, &rec); err != nil {
+			panic(err)
+		}
+		o.Put(runSyncCase(rec.Spec))
 	case "temp":
 		var rec tempRec
 		if err := json.Unmarshal(line, &rec); err != nil {
